@@ -71,7 +71,7 @@ def _forward_target(ctx: Ctx, callee: FuncInfo) -> Optional[FuncInfo]:
     return None
 
 
-def rule_kw(ctx: Ctx, scope: Iterable[str], rule: str = "R-KW") -> None:
+def rule_kw(ctx: Ctx, scope: Iterable[str], rule: str = "R-KW", min_sites: int = 30) -> None:
     """Every explicit keyword binds to a named parameter; a dead **kwargs must not swallow one."""
     n_sites = 0
     for fi in scope_functions(ctx, scope):
@@ -110,7 +110,7 @@ def rule_kw(ctx: Ctx, scope: Iterable[str], rule: str = "R-KW") -> None:
             else:
                 ctx.ok(rule, short(fi.qualname), f"{callee.name}@{_site_key(call)}",
                        sample={"call": ast.unparse(call)[:120], "bound": sorted(b.bound)} if n_sites % 40 == 1 else None)
-    ctx.require(n_sites >= 100, f"{rule}: only {n_sites} resolved keyword call sites (hand-confirmed minimum 100)")
+    ctx.require(n_sites >= min_sites, f"{rule}: only {n_sites} resolved keyword call sites (hand-confirmed minimum {min_sites})")
 
 
 # ----------------------------------------------------------------------------
@@ -368,7 +368,7 @@ def rule_tf(ctx: Ctx, scope: Iterable[str], rule: str = "R-TF", only_callers: Op
             ctx.call_sites += 1
             inst = f"{with_param[0].cls.name + '.' if with_param[0].cls else ''}{with_param[0].name}@{_ordinal(fi, call)}"
             missing = [(c, r) for c, r, b, bound in verdicts if r == "yes" and bound is None and not splat_unknown and not b.star_args]
-            wrong = [(c, bound) for c, r, b, bound in verdicts if r == "yes" and bound is not None and not _is_transforms_expr(bound) and not _tf_like(bound)]
+            wrong = [(c, bound) for c, r, b, bound in verdicts if r == "yes" and bound is not None and not _is_transforms_expr(bound) and not _tf_like(bound) and not _local_tf(fi, bound)]
             if missing and len(missing) == len([v for v in verdicts if v[1] == "yes"]) and len(verdicts) == len(missing):
                 c0 = missing[0][0]
                 b0 = [b for c, r, b, bound in verdicts if c is c0][0]
@@ -389,6 +389,19 @@ def rule_tf(ctx: Ctx, scope: Iterable[str], rule: str = "R-TF", only_callers: Op
     if min_sites:
         ctx.require(n >= min_sites, f"{rule}: only {n} transforms-relevant call sites recognised (hand-confirmed minimum {min_sites})")
     return n
+
+
+def _local_tf(fi: FuncInfo, e: ast.expr) -> bool:
+    """A local name whose every definition in the function is a transforms-valued expression."""
+    if not isinstance(e, ast.Name):
+        return False
+    defs = []
+    for n in walk_own(fi.node):
+        if isinstance(n, ast.Assign) and any(isinstance(t, ast.Name) and t.id == e.id for t in n.targets):
+            defs.append(n.value)
+        elif isinstance(n, ast.AnnAssign) and isinstance(n.target, ast.Name) and n.target.id == e.id and n.value is not None:
+            defs.append(n.value)
+    return bool(defs) and all(_is_transforms_expr(d) or _tf_like(d) for d in defs)
 
 
 def _tf_like(e: ast.expr) -> bool:
